@@ -19,6 +19,10 @@ for op in ("+", "-", "*", "/", "%", "&", "|", "<<", ">>", "==", "!=", "<", "<=",
     t("binR" + op, "7 %s " % op, "")
 for op in ("+", "-", "*", "|", "&", "%", "<<", "<", "==", "!=", "&&", "||"):
     t("binL" + op + "-then-store", "", " %s bump()" % op)       # the right operand overwrites the place the left one was read from
+t("in-item-then-store", "", " in [bump(), 3, 1, \"ab\"]"); t("multi-assign-then-store", "q1, q2 = ", ", bump()\n[q1, q2]"); t("return-then-deferred-store", "func() {\n defer bump()\n return ", "\n}()")
+t("var-then-store", "var q1, q2 = ", ", bump()\n[q1, q2]"); t("index-then-store", "[5, 6, 7, 8][", "] + bump()"); t("tern-then-store", "(true ? ", " : 0) + bump()")
+t("delete-global-flag", "xg = 1\nfunc() {\n delete(\"xg\", ", ")\n}()\nxg ?? \"gone\""); t("eq-ptr", "vp == ", ""); t("eq-ptr-l", "", " == vp"); t("in-ptr-list", "", " in [vp, 1]"); t("in-list-ptr", "vp in [", "]")
+t("switch-ptr-case", "func() {\n switch vp {\n case ", ":\n  return \"hit\"\n }\n return \"miss\"\n}()"); t("switch-ptr-subject", "func() {\n switch ", " {\n case vp:\n  return \"hit\"\n }\n return \"miss\"\n}()")
 t("list-then-store", "[", ", bump()]"); t("args-then-store", "f2(", ", bump())"); t("map-then-store", "{\"a\": ", ", \"b\": bump()}")
 t("plus-str-l", "", ' + "s"'); t("plus-str-r", '"s" + ', "")
 t("plus-list-l", "", " + [9]"); t("plus-list-r", "[9] + ", "")
